@@ -108,6 +108,11 @@ class Analysis(object):
                 for t in n.targets:
                     if isinstance(t, ast.Name):
                         defs.setdefault(t.id, []).append(n.value)
+                    elif isinstance(t, (ast.Tuple, ast.List)) and isinstance(n.value, (ast.Tuple, ast.List)) and len(t.elts) == len(n.value.elts) \
+                            and all(isinstance(x, ast.Name) for x in t.elts):
+                        # parallel assignment: element-wise
+                        for x, v in zip(t.elts, n.value.elts):
+                            defs.setdefault(x.id, []).append(v)
                     else:
                         for x in ast.walk(t):
                             if isinstance(x, ast.Name) and isinstance(x.ctx, ast.Store):
@@ -527,6 +532,8 @@ class Analysis(object):
         s = st.copy()
         # evaluate the right-hand side with the OLD environment
         def rhs_info(v):
+            if isinstance(v, ast.Attribute) and v.attr == "size":
+                return None, frozenset(["py"]), None, None
             p = self.path(v, st)
             k = None
             ops = None
